@@ -1811,6 +1811,24 @@ def add_hash_twin(P):
     return P
 
 
+def c15_into_deref():
+    """Into next to Deref: an undesignated Into target still resolves to the unique field of that type, wherever the Deref marker sits"""
+    out = []
+    full = lambda **kw: dict({"eq": {}, "ord": {}, "hash": {}, "clone": {}, "debug": {"ignore": False, "key": None, "method": None}, "into": {"marks": {}}, "deref": {}, "deref_mut": {}}, **kw)
+    for k, shape in enumerate(("named", "tuple")):
+        fs = [Field("raw" if shape == "named" else None, "u8", attrs=["Deref"], **full(deref={"mark": True})), Field("scaled" if shape == "named" else None, "u16", **full())]
+        P = Program("pi%03d" % k, "struct", "S", [Variant(None, shape, fs)], ["Deref", "Into(u16)"] if k else ["Into(u16)", "Deref"], focus={"Deref", "Into"},
+                    note="C15 Into(u16) next to Deref on another field, struct %s" % shape, into={"targets": ["u16"]})
+        P.tags["prop"] = "C15"
+        out.append(P)
+    vs = [Variant("V0", "named", [Field("raw", "u8", attrs=["Deref"], **full(deref={"mark": True})), Field("scaled", "u16", **full())]),
+          Variant("V1", "tuple", [Field(None, "u16", **full()), Field(None, "u8", attrs=["Deref"], **full(deref={"mark": True}))])]
+    P = Program("pi009", "enum", "E", vs, ["Deref", "Into(u16)"], focus={"Deref", "Into"}, note="C15 Into(u16) next to Deref on another field, enum", into={"targets": ["u16"]})
+    P.tags["prop"] = "C15"
+    out.append(P)
+    return out
+
+
 def c15_unit_enums():
     """field-less enums with explicit discriminants educing Hash next to Copy / Clone / the comparison traits: the
     Hash-only twin feeds the same data"""
@@ -1832,7 +1850,7 @@ def c15_unit_enums():
 def c15(tier, seed):
     rnd = random.Random(1000 + seed)
     c = Counter()
-    out = c15_structured() + c15_packed() + c15_deref() + c15_unit_enums()
+    out = c15_structured() + c15_packed() + c15_deref() + c15_unit_enums() + c15_into_deref()
     ALL = ["Debug", "PartialEq", "Eq", "PartialOrd", "Ord", "Hash", "Clone", "Default", "Into(u16)"]
     nprog = 24 if tier == "quick" else 360
     for pi in range(nprog):
@@ -2488,6 +2506,48 @@ def wide(prop):
         P.tags["no_verus"] = "raw pointer field: decided by Kani"
         out.append(P)
 
+    if prop == "C02":
+        # tuple-typed fields, written with a trailing comma (a one-element tuple needs it; rustfmt adds it to multi-line ones)
+        for shape in ("named", "tuple"):
+            fs = [Field(LONG[0] if shape == "named" else None, "(u8,)", eq={}), Field(LONG[1] if shape == "named" else None, "(u8, u8,)", eq={}), Field(LONG[2] if shape == "named" else None, "u8", eq={})]
+            P = Program(pid(), "struct", "S", [Variant(None, shape, fs)], ["PartialEq"], focus={"PartialEq"}, note="wide: tuple-typed fields with trailing commas, struct %s" % shape)
+            P.tags["no_verus"] = "tuple-typed fields: decided by Kani"
+            out.append(P)
+        vs = [Variant("V0", "tuple", [Field(None, "(u8,)", eq={})]), Variant("V1", "named", [Field("a", "(u8, u8,)", eq={}), Field("b", "u8", eq={})])]
+        P = Program(pid(), "enum", "E", vs, ["PartialEq"], focus={"PartialEq"}, note="wide: tuple-typed fields with trailing commas, enum")
+        P.tags["no_verus"] = "tuple-typed fields: decided by Kani"
+        out.append(P)
+    if prop == "C03":
+        # every variant has fields and every field of every variant is ignored: the variants still order by discriminant
+        for md in ("both", "po"):
+            car = "Ord" if md == "both" else "PartialOrd"
+            vs = [Variant("V0", "tuple", [Field(None, "u8", attrs=["%s(ignore)" % car], ord={"ignore": True})]),
+                  Variant("V1", "named", [Field("a", "u8", attrs=["%s = false" % car], ord={"ignore": True}), Field("b", "u16", attrs=["%s(ignore = true)" % car], ord={"ignore": True})]),
+                  Variant("V2", "tuple", [Field(None, "u8", attrs=["%s(ignore)" % car], ord={"ignore": True})])]
+            out.append(ord_program(pid(), "enum", "E", vs, md, [], 0, "wide: every field of every variant ignored (same-typed fields irrelevant) mode=%s" % md))
+    if prop == "C07":
+        fs = [Field(None, "u8", clone={}), Field(None, "u8", attrs=["Clone(method = crate::m::alt::clone)"], clone={"method": "crate::m::alt::clone"})]
+        out.append(clone_program(pid(), "struct", "S", [Variant(None, "tuple", fs)], [], False, "wide: method path ending in ::clone, struct", 1))
+        vs = [Variant("V0", "unit", []), Variant("V1", "named", [Field("a", "u8", attrs=['Clone(method("crate::m::alt::clone"))'], clone={"method": "crate::m::alt::clone"}), Field("b", "u8", clone={})])]
+        out.append(clone_program(pid(), "enum", "E", vs, [], False, "wide: method path ending in ::clone, enum", 1))
+        out.append(clone_program(pid(), "enum", "E", copy.deepcopy(vs), [], True, "wide: method path ending in ::clone, Copy enum", 1))
+    if prop == "C09":
+        # named variants whose designated fields sit at the same position under different names, each name also present in the other variant
+        vs = [Variant("V0", "named", [Field("w", "u8", deref={}, deref_mut={}), Field("h", "u8", attrs=["Deref", "DerefMut"], deref={"mark": True}, deref_mut={"mark": True})]),
+              Variant("V1", "named", [Field("h", "u8", deref={}, deref_mut={}), Field("w", "u8", attrs=["Deref", "DerefMut"], deref={"mark": True}, deref_mut={"mark": True})]),
+              Variant("V2", "named", [Field("w", "u8", attrs=["Deref"], deref={"mark": True}, deref_mut={}), Field("h", "u8", attrs=["DerefMut"], deref={}, deref_mut={"mark": True})])]
+        out.append(Program(pid(), "enum", "E", vs, ["Deref", "DerefMut"], focus={"Deref", "DerefMut"}, note="wide: named variants with permuted field names, designated fields at the same position"))
+    if prop == "C10":
+        # two markers on one field, the first with a method that is generic over its result: the second target converts with Into
+        for shape in ("named", "tuple"):
+            for kind in ("struct", "enum"):
+                fs = [Field("a" if shape == "named" else None, "u8", attrs=["Into(u16, method = crate::m::into_g)", "Into(u32)"], into={"marks": {"u16": "crate::m::into_g", "u32": None}}),
+                      Field("b" if shape == "named" else None, "u8", into={"marks": {}})]
+                vs = [Variant(None if kind == "struct" else "V0", shape, fs)] + ([Variant("V1", "tuple", [Field(None, "u8", into={"marks": {}})])] if kind == "enum" else [])
+                P = into_program(pid(), kind, vs, ["u16", "u32"], "wide: generic conversion method on the first of two markers, %s %s" % (kind, shape), 0)
+                P.tags["no_verus"] = "generic conversion method: decided by Kani"
+                out.append(P)
+
     return out
 
 
@@ -2706,6 +2766,28 @@ def selfadv_twins(programs, every=5, limit=12):
         g = "<" + ", ".join(Q.generics) + ">" if Q.generics else ""
         Q.tags["pre_items"] = Q.tags.get("pre_items", "") + SELF_ADV % (g, Q.ty_generic(), ("where " + Q.where) if Q.where else "")
         Q.note = "self-adversarial twin (the educed type has panicking inherent eq/cmp/hash/clone/default/fmt) of " + P.pid + ": " + P.note
+        out.append(Q)
+    return out
+
+
+def foreign_attr_twins(programs, limit=6):
+    """twins whose fields carry OTHER attributes next to the educe ones: a doc comment (a name-value attribute) before the
+    educe attribute, a list attribute (`#[allow(..)]`) after it, or both around it; nothing about the derive changes"""
+    out = []
+    cands = [P for P in programs if P.canary_of is None and P.kind != "union" and not P.pid[-1] in "uabs"
+             and any(f.attrs for v in P.variants for f in v.fields)]
+    step = max(1, len(cands) // limit)
+    for k, P in enumerate(cands[::step][:limit]):
+        Q = copy.deepcopy(P)
+        Q.tags.pop("frozen_src", None)
+        Q.pid = P.pid + "f"
+        j = 0
+        for v in Q.variants:
+            for f in v.fields:
+                if f.attrs:
+                    f.sem["_foreign_attrs"] = [("/// a documented field\n", ""), ("", "#[allow(dead_code)] "), ("/** block doc */ #[allow(unused)] ", "#[doc = \"after\"] ")][(k + j) % 3]
+                    j += 1
+        Q.note = "foreign attributes (doc comments, #[allow]) around the field-level educe attributes of " + P.pid + ": " + P.note
         out.append(Q)
     return out
 
